@@ -117,10 +117,10 @@ def rare(time, xlab, dx, p_cj, d_cj, gam, u_piston):
         x2 = x1 + dx
         dxp = (x2 - xp)
         h = dxp / 2
-        u = dd * (x1 + h) + ee
-        p = p_cj * ((aa * (x1 + dxp) + bb)**bp1 - (aa * x1 + bb)**bp1) / (dxp * aa * bp1)
-        c = c_cj * (aa * (x1 + h) + bb)
-        rho = rho_cj * ((aa * (x1 + dxp) + bb)**dp1 - (aa * x1 + bb)**dp1) / (dxp * aa * dp1)
+        u = dd * (xp + h) + ee
+        p = p_cj * ((aa * x2 + bb)**bp1 - (aa * xp + bb)**bp1) / (dxp * aa * bp1)
+        c = c_cj * (aa * (xp + h) + bb)
+        rho = rho_cj * ((aa * x2 + bb)**dp1 - (aa * xp + bb)**dp1) / (dxp * aa * dp1)
 
         # residual q's
         ur = u_piston
